@@ -466,6 +466,47 @@ def clause_f(facts, rep):
                 rep.check(local, 'E7.fresh-parser', f.qn, show(e)[:80], locline(e['loc']),
                           'the SkipScanner object must be a function-local automatic variable', facts.config)
         rep.fn(f) if False else None
+    # ... and serves one buffer only: no second parse-entry call on the same object is reachable from the first
+    # without passing through the object's declaration again (a loop around both, or two calls in sequence)
+    for f in facts.functions:
+        if f.cls_qn in (PARSER, 'sonic_json::internal::SkipScanner'):
+            continue
+        sites = {}
+        for bid, i, s, e in f.walk():
+            if e.get('k') == 'call' and e.get('obj') is not None and (
+                    (e.get('ccls') == PARSER and e.get('cname') in ('Parse', 'ParseLazy')) or
+                    (e.get('ccls') == 'sonic_json::internal::SkipScanner' and e.get('cname') in ('GetOnDemand',))):
+                o = strip(e['obj'])
+                if o is not None and o.get('k') == 'ref' and o.get('dk') == 'local':
+                    sites.setdefault(o['id'], []).append((bid, i, e))
+        for oid, cs in sites.items():
+            decl = None
+            for bid, i, s in f.stmts():
+                s_ = strip(s)
+                if s_ is not None and s_.get('k') == 'decl' and any(vd['id'] == oid for vd in s_['vars']):
+                    decl = bid
+            def reach(src, dst_set):
+                seen, work = set(), [x for x in f.blocks[src]['succs'] if x is not None]
+                while work:
+                    b = work.pop()
+                    if b in seen or b == decl:
+                        continue
+                    seen.add(b)
+                    if b in dst_set:
+                        return True
+                    work += [x for x in f.blocks[b]['succs'] if x is not None]
+                return False
+            blocks = [b for b, _, _ in cs]
+            reused = None
+            for k, (bid, i, e) in enumerate(cs):
+                others = set(b for j, (b, _, _) in enumerate(cs) if j != k)
+                same_block_later = any(b == bid and ii > i for j, (b, ii, _) in enumerate(cs) if j != k)
+                if same_block_later or reach(bid, others | {bid}):
+                    reused = e
+                    break
+            n += 1
+            rep.check(reused is None, 'E7.fresh-parser', f.qn, 'one buffer per parser/scanner object (%d entry call(s))' % len(cs), locline(cs[0][2]['loc']),
+                      'a second parse on the same object (%s) is reachable without re-creating it: its white-space cache still describes the previous buffer' % (show(reused)[:60] if reused else ''), facts.config)
     # inside Parser, the scanner is the by-value member of the (fresh) parser
     for c in facts.classes:
         if c['qn'] == PARSER:
